@@ -22,7 +22,7 @@ MANIFEST = {
     "technique": "bounded-exhaustive differential enumeration: same inputs on two backends, all observables compared",
 }
 MANIFEST["text"] += " " + (
-    'Added after the seeding waves: a second SQLite map built with single inserts, and an incremental build (load a part, query it, add the rest with add_edge, compare again).')
+    'Added after the seeding waves: a second SQLite map built with single inserts, and an incremental build (load a part, query it, add the rest with add_edge, compare again); the single-insert build offers every node with ignore_doubles=True and offers every label a second time with other coordinates (content must stay that of the first offer), box-restricted listings are compared on it too.')
 BUDGET = {"quick": 400, "thorough": 2400}
 RULE = ("cases = (coordinate set, graph); each compares all observables, 64 boxes and all traces x 4 matcher configurations on both "
         "backends. states = (graph, box) and (graph, trace, configuration) pairs compared, transitions = observable comparisons, "
@@ -198,6 +198,7 @@ def run_case(case):
             for bb in boxes:
                 res["st"] += 1
                 got = cmp(f"all_nodes(bb={bb})", lambda: norm_nodes(im.all_nodes(bb=bb)), lambda: norm_nodes(sm.all_nodes(bb=bb)), box=list(bb))
+                cmp(f"all_nodes(bb={bb}) [single inserts]", lambda: norm_nodes(im.all_nodes(bb=bb)), lambda: norm_nodes(sm1.all_nodes(bb=bb)), box=list(bb))
                 truth = norm_nodes((k, v[0]) for k, v in graph.items() if bb[0] <= v[0][0] <= bb[2] and bb[1] <= v[0][1] <= bb[3])
                 if got is not None and got != truth:
                     bad(f"all_nodes(bb={bb}) = {got}, nodes inside the closed box are {truth}", box=list(bb))
